@@ -479,6 +479,14 @@ fn gen_level(rng: &mut Rng, cfg: &GenCfg, sw: &Swarm, names: &mut Names, level: 
         }
         c.subs.push(s);
     }
+    // sibling subcommands may share a display order (listings must still name each of them)
+    if cfg.help_features && c.subs.len() >= 2 && rng.chance(1, 5) {
+        let o = rng.usize(3);
+        let k = rng.urange(2, c.subs.len());
+        for s in c.subs.iter_mut().take(k) {
+            s.display_order = Some(o);
+        }
+    }
     c
 }
 
@@ -693,7 +701,8 @@ fn gen_args(rng: &mut Rng, cfg: &GenCfg, sw: &Swarm, names: &mut Names, c: &mut 
                     a.default_values[0] = B(b"caf\xe9.conf".to_vec());
                 }
             }
-            if matches!(a.parser, ValParser::Possible(_)) && rng.chance(1, 4) {
+            // ignore_case is about possible values; on the other parsers it must change nothing
+            if matches!(a.parser, ValParser::Possible(_) | ValParser::EnumVp | ValParser::Bool | ValParser::Boolish | ValParser::Int { .. }) && rng.chance(1, 4) {
                 a.ignore_case = true;
             }
             if cfg.help_features {
@@ -747,6 +756,16 @@ fn gen_args(rng: &mut Rng, cfg: &GenCfg, sw: &Swarm, names: &mut Names, c: &mut 
         let a = &mut c.args[i];
         if !a.global && !a.is_positional() && !matches!(a.action, Action::Help | Action::HelpShort | Action::HelpLong | Action::Version) {
             a.required = true;
+        }
+    }
+    // ... and conflicts with several spellings on the other side (zsh prints them as an exclusion list)
+    if !cfg.parse_features && c.args.len() >= 3 && rng.chance(1, 3) {
+        let ids: Vec<String> = c.args.iter().filter(|a| !a.is_positional() && !a.global && !matches!(a.action, Action::Help | Action::HelpShort | Action::HelpLong | Action::Version)).map(|a| a.id.clone()).collect();
+        if ids.len() >= 3 {
+            let first = ids[0].clone();
+            if let Some(a) = c.args.iter_mut().find(|a| a.id == first) {
+                a.conflicts = ids[1..ids.len().min(4)].to_vec();
+            }
         }
     }
     // ---- relations
@@ -1063,6 +1082,25 @@ pub fn gen_argv(rng: &mut Rng, root: &CmdSpec, max_tokens: usize) -> Vec<B> {
                     for s2 in &s.subs {
                         longs.extend(s2.args.iter().filter_map(|a| a.long.as_ref()));
                     }
+                }
+                // ... or of a subcommand's name / long flag, typed as a bare word
+                let mut words: Vec<&String> = level.subs.iter().map(|s| &s.name).collect();
+                words.extend(level.subs.iter().filter_map(|s| s.long_flag.as_ref()));
+                words.extend(level.subs.iter().flat_map(|s| s.long_flag_aliases.iter().chain(s.visible_long_flag_aliases.iter())));
+                if rng.chance(1, 4) && !words.is_empty() {
+                    let mut m: Vec<char> = rng.pick(&words).chars().collect();
+                    if m.len() >= 3 {
+                        let k = rng.urange(1, m.len() - 2);
+                        match rng.below(3) {
+                            0 => {
+                                m.remove(k);
+                            }
+                            1 => m.swap(k, k + 1),
+                            _ => m.insert(k, 'x'),
+                        }
+                    }
+                    out.push(B::s(&m.into_iter().collect::<String>()));
+                    continue;
                 }
                 if rng.coin() && !longs.is_empty() {
                     let l: Vec<char> = rng.pick(&longs).chars().collect();
